@@ -3,6 +3,7 @@ from __future__ import annotations
 
 import calendar as _cal
 import datetime as _dt
+import functools
 
 from sim import tzdb
 
@@ -19,6 +20,52 @@ DST_ZONES = ["Europe/Paris", "America/New_York", "Europe/London", "Australia/Lor
 PLAIN_ZONES = ["UTC", "Asia/Tokyo", "Asia/Kolkata", "Asia/Kathmandu", "Africa/Nairobi", "Etc/GMT+12", "Pacific/Kiritimati"]
 FIXED = [0, 3600, -3600, 19800, -16200, 20700, 45900, -43200, 50400, 86340, -86340, 3661, -1800]
 ALL_NAMED = MIDNIGHT_ZONES + DST_ZONES + PLAIN_ZONES
+_CURATED = (MIDNIGHT_ZONES, DST_ZONES, PLAIN_ZONES, ALL_NAMED)
+
+# ---- swarm: "wide" runs.  The curated lists above are where the interesting transitions are known
+# to be; a fixed list is also a blind spot (a change keyed on a zone, a rule shape or an era nobody
+# listed).  In a fraction of the runs the three lists are re-drawn from *every* zone name the tzdata
+# package ships (~600) and transitions are looked for back to 1900 (LMT -> standard time changes with
+# second-granularity offsets, war time, the day skips of Kwajalein/Fakaofo/Kanton ...).  The decision
+# and the sample come from their own PRNG sub-stream ("zones"), so the other runs of a seed are
+# bit-for-bit what they were before this mode existed.
+WIDE = False
+WIDE_P = 0.25
+TRANS_RANGE = (1970, 2040)
+
+
+@functools.lru_cache(maxsize=None)
+def all_zones():
+    import zoneinfo
+
+    skip = {"Factory", "localtime", "posixrules"}
+    return tuple(sorted(z for z in zoneinfo.available_timezones() if z not in skip and not z.startswith(("posix/", "right/"))))
+
+
+def begin_run(rz):
+    """rz: the run's own "zones" PRNG sub-stream."""
+    global WIDE, MIDNIGHT_ZONES, DST_ZONES, PLAIN_ZONES, ALL_NAMED, TRANS_RANGE
+    import os
+
+    p = float(os.environ.get("VERIF_WIDE", WIDE_P))
+    WIDE = rz.random() < p
+    if not WIDE:
+        MIDNIGHT_ZONES, DST_ZONES, PLAIN_ZONES, ALL_NAMED = _CURATED
+        TRANS_RANGE = (1970, 2040)
+        return
+    az = all_zones()
+    pick = rz.sample(az, 24)
+    # zones with many transitions first in the "DST" bucket (most draws go there)
+    MIDNIGHT_ZONES, DST_ZONES, PLAIN_ZONES = pick[:8], pick[8:20], pick[20:] + ["UTC"]
+    ALL_NAMED = MIDNIGHT_ZONES + DST_ZONES + PLAIN_ZONES
+    TRANS_RANGE = (1900, 2040)
+
+
+def end_run():
+    global WIDE, MIDNIGHT_ZONES, DST_ZONES, PLAIN_ZONES, ALL_NAMED, TRANS_RANGE
+    WIDE = False
+    MIDNIGHT_ZONES, DST_ZONES, PLAIN_ZONES, ALL_NAMED = _CURATED
+    TRANS_RANGE = (1970, 2040)
 
 
 def pick_zone(r, allow_fixed=True, allow_naive=False, midnight_bias=0.3):
@@ -41,7 +88,7 @@ def year_start_us(y):
 def pick_instant(r, zone, lo_year=1971, hi_year=2039):
     """instant (us) biased to the zone's transitions and to calendar boundaries."""
     x = r.random()
-    trans = tzdb.transitions(zone) if isinstance(zone, str) else ()
+    trans = tzdb.transitions(zone, *TRANS_RANGE) if isinstance(zone, str) else ()
     if trans and x < 0.45:
         t, o0, o1 = r.choice(trans)
         gap = abs(o1 - o0)
